@@ -24,6 +24,10 @@ func init() {
 		{Name: "rand-padding", Rule: "R11.1", Where: "(*PingResp).fill", Edits: []Edit{
 			{"pingresp.go", "\ti += vbint(0).fill(b, i) // remaining length none", "\ti += vbint(rand.Intn(1)).fill(b, i) // remaining length none"},
 			{"pingresp.go", "import (\n", "import (\n\t\"math/rand\"\n"}}},
+		{Name: "setter-reuses-shared-default-storage-through-helper", Rule: "R11.3", Where: "Connect.protocolName", Edits: []Edit{
+			{"connect.go", "func (p *Connect) SetProtocolName(v string) { p.protocolName = wstring(v) }", "func (p *Connect) SetProtocolName(v string) { setString(&p.protocolName, v) }\n\nfunc setString(dst *wstring, v string) {\n\t*dst = append((*dst)[:0], v...)\n}"}}},
+		{Name: "setter-helper-replacing-the-slice-stays", Silent: true, Edits: []Edit{
+			{"connect.go", "func (p *Connect) SetProtocolName(v string) { p.protocolName = wstring(v) }", "func (p *Connect) SetProtocolName(v string) { setString(&p.protocolName, v) }\n\nfunc setString(dst *wstring, v string) {\n\t*dst = make(wstring, len(v))\n\tcopy(*dst, v)\n}"}}},
 		{Name: "single-entry-map-range-stays", Silent: true, Edits: []Edit{{"suback.go", "\tfor id, v := range p.propertyMap() {\n\t\ti += v().fillProp(b, i, id)\n\t}", "\tm := p.propertyMap()\n\tfor id, v := range m {\n\t\ti += v().fillProp(b, i, id)\n\t}"}}},
 	}})
 }
